@@ -120,10 +120,20 @@ def run(ctx: Ctx) -> None:
     B = prog.cls('biogeme', 'BIOGEME')
     nt = B.methods.get('number_of_threads')
     ctx.need(nt is not None, 'BIOGEME.number_of_threads')
-    txt = ' ; '.join(unparse(s) for s in nt.body)
-    m = re.search(r"(\w+) = self\.biogeme_parameters\.get_value\((?:name=)?'number_of_threads'\)", txt)
-    ok = m is not None and f'return mp.cpu_count() if {m.group(1)} == 0 else {m.group(1)}' in txt and 'property' in nt.decorators()
-    ctx.add('C04.R2', 'BIOGEME.number_of_threads', ok, nt, 'number_of_threads is the parameter value, 0 meaning all CPUs' if ok else f'number_of_threads: {txt[:120]}', txt)
+    from ..pattern import body_is
+
+    bnt = None
+    for arg in ("'number_of_threads'", "name='number_of_threads'"):
+        bnt = bnt or body_is(nt.body, f"""
+_N = self.biogeme_parameters.get_value({arg})
+return __ALL if _N == 0 else __SAME
+""")
+    if bnt is None or 'property' not in nt.decorators():
+        ctx.shape('C04.R2', 'BIOGEME.number_of_threads', False, nt, '', 'property returning the parameter number_of_threads, with a special value for 0')
+    else:
+        allv, same = unparse(bnt['__ALL'][1]), unparse(bnt['__SAME'][1])
+        ok = allv in ('mp.cpu_count()', 'multiprocessing.cpu_count()', 'os.cpu_count()') and same == bnt['_N']
+        ctx.add('C04.R2', 'BIOGEME.number_of_threads', ok, nt, 'number_of_threads is the parameter value, 0 meaning all CPUs' if ok else f'number_of_threads: 0 -> {allv}, otherwise {same}', f'{allv}/{same}')
 
     f = B.methods['calculate_likelihood']
     rets = [n for n in walk_no_nested(f.node) if isinstance(n, ast.Return) and n.value is not None]
